@@ -143,7 +143,7 @@ func (s *serverSocket) onPacket(header *parser.PacketHeader, eventName string, d
 		}
 
 		for _, handler := range s.eventHandlers.getAll(eventName) {
-			s.onEvent(handler, header, decode, sendAck)
+			s.onEvent(handler, header, eventName, decode, sendAck)
 		}
 	case parser.PacketTypeAck, parser.PacketTypeBinaryAck:
 		s.onAck(header, decode)
@@ -164,6 +164,7 @@ func (s *serverSocket) onDisconnect() {
 func (s *serverSocket) onEvent(
 	handler *eventHandler,
 	header *parser.PacketHeader,
+	eventName string,
 	decode parser.Decode,
 	sendAck ackSendFunc,
 ) (hasAckFunc bool) {
@@ -184,7 +185,13 @@ func (s *serverSocket) onEvent(
 		return
 	}
 
-	err = s.callMiddlewares(values)
+	// Middlewares see the event name and the event's arguments.
+	// The ack placeholder (last value of an ack-carrying handler) is not an argument.
+	mwValues := values
+	if ack, _ := handler.ack(); ack {
+		mwValues = values[:len(values)-1]
+	}
+	err = s.callMiddlewares(eventName, mwValues)
 	if err != nil {
 		s.onError(err)
 		return
